@@ -129,6 +129,56 @@ theorem no_session_without_accept (exp inp : Bytes) (h : inp.take 32 ≠ exp ∨
     · omega
   | _ => rfl
 
+/-! ### the gate of the server connection (`handle_connection`, shape regenerated into `Gen.authGate`) -/
+
+/-- Obligation on the code: `authenticate_client` is awaited once, bare, between the split of the TLS stream and the
+construction of the session on the same reader. -/
+theorem gen_auth_gate_bare : Gen.authGate = .bareOnce := by decide
+
+/-- a bare gate is `authServer` on everything received: pauses, timers and the way the bytes are cut into reads do not
+exist for it -/
+theorem bare_gate_is_authServer (exp : Bytes) : ∀ (evs : List ConnEv) (acc : Bytes),
+    gateRun .bareOnce exp acc evs = authServer exp (acc ++ bytesOf evs) := by
+  intro evs
+  induction evs with
+  | nil => intro acc; simp [gateRun, bytesOf]
+  | cons e es ih =>
+    intro acc
+    cases e with
+    | tick =>
+      unfold gateRun
+      cases hv : authServer exp acc with
+      | needMore => simp only [bytesOf]; exact ih acc
+      | reject => simp only [bytesOf]; rw [auth_prefix_stable exp acc _ (by rw [hv]; exact AuthOut.noConfusion), hv]
+      | accept n => simp only [bytesOf]; rw [auth_prefix_stable exp acc _ (by rw [hv]; exact AuthOut.noConfusion), hv]
+    | bytes b =>
+      unfold gateRun
+      cases hv : authServer exp acc with
+      | needMore => simp only [bytesOf]; rw [ih (acc ++ b), List.append_assoc]
+      | reject => simp only [bytesOf]; rw [auth_prefix_stable exp acc _ (by rw [hv]; exact AuthOut.noConfusion), hv]
+      | accept n => simp only [bytesOf]; rw [auth_prefix_stable exp acc _ (by rw [hv]; exact AuthOut.noConfusion), hv]
+
+/-- T6.6 `gate_accept_iff`: the listening server's connection task lets a connection through iff the first 32 bytes of
+everything it received are the hash (and the declared padding is in) — for every way the bytes arrive, every pause
+between them and every timer that fires meanwhile. -/
+theorem gate_accept_iff (exp : Bytes) (evs : List ConnEv) (n : Nat) :
+    gateRun Gen.authGate exp [] evs = .accept n ↔
+      (bytesOf evs).length ≥ 34 ∧ (bytesOf evs).take 32 = exp ∧
+      n = 34 + rd16 ((bytesOf evs).getD 32 0) ((bytesOf evs).getD 33 0) ∧ n ≤ (bytesOf evs).length := by
+  rw [gen_auth_gate_bare, bare_gate_is_authServer, List.nil_append]
+  exact auth_accept_iff exp (bytesOf evs) n
+
+/-- the excluded shape, refuted by a witness: three stray bytes, a timer expiry, then the genuine preamble — the retried
+call takes the later bytes for "the first 32" and lets the connection through although what it received does not start
+with the hash (and, symmetrically, a holder of the password who pauses after the hash is turned away). -/
+theorem timed_retry_accepts_stray_prefix :
+    gateRun .timedRetry (zeros 32) [] [.bytes [1, 2, 3], .tick, .bytes (zeros 32 ++ [0, 0])] = .accept 34 ∧
+    gateRun .timedRetry (zeros 32) [] [.bytes (zeros 32), .tick, .bytes [0, 0]] = .needMore ∧
+    gateRun .bareOnce (zeros 32) [] [.bytes [1, 2, 3], .tick, .bytes (zeros 32 ++ [0, 0])] = .reject ∧
+    gateRun .bareOnce (zeros 32) [] [.bytes (zeros 32), .tick, .bytes [0, 0]] = .accept 34 := by
+  decide
+
+
 /-- non-vacuity: a 32-byte hash, declared padding 2, then a SYN frame -/
 example :
     let hash : Bytes := List.replicate 32 7
